@@ -1,7 +1,9 @@
 """C33 -- Request.url / host / port / authority stay consistent.
 
-Two kinds of generated case on real ``mitmproxy.http.Request`` objects (HTTP/1.1, HTTP/2, HTTP/3; with and
-without Host header / authority):
+Two kinds of generated case on real ``mitmproxy.http.Request`` objects (HTTP/1.x, HTTP/2, HTTP/3; origin-form
+GET/POST/HEAD/OPTIONS, asterisk-form ``OPTIONS *`` and authority-form ``CONNECT``; with and without Host header /
+authority).  On a CONNECT request ``Request.url`` reads "host:port" by design, so there only components, Host header and
+authority are checked after a URL assignment:
 
 * ``url``   -- a valid http/https URL u (DNS names, IDN as U-label / A-label, IPv4, bracketed IPv6; no / default /
   explicit / empty / zero-padded port; paths and queries from RFC 3986 characters incl. %xx, ;params, //, dot
@@ -9,7 +11,8 @@ without Host header / authority):
   vf/ref/c33_url.py: regex + ipaddress + ``idna`` package) to an equivalent URL, scheme/host/port/path must agree
   with it, assigning the read-back URL again must neither raise nor change any observable state, and an existing
   Host header / authority must denote the new (host, port).
-* ``edits`` -- 1..6 edits (``r.host = h`` with str or IDNA bytes, ``r.port = p``, ``r.url = u``) on such a request;
+* ``edits`` -- 1..6 edits (``r.host = h`` with str or IDNA bytes, ``r.port = p``, ``r.url = u``, ``r.method = m`` which
+  switches the request form, e.g. GET -> CONNECT) on such a request;
   after every edit r.host / r.port reflect it and an existing Host header and authority denote (r.host, r.port)
   under the reference authority reader (IPv6 bracketed, default port may be elided, IDN forms equivalent).
 """
@@ -33,10 +36,11 @@ REQUIRED = [
     "edit.authority_points_to_destination",
     "edit.host_port_reflect_edit",
     "url.same_destination_other_scheme_with_host_or_authority",
+    "edit.connect_request_with_authority_edited",
 ]
 RULE = (
-    "case = url (one generated valid URL assigned to a request in a random initial state) or edits (1..6 host/port/url "
-    "edits); hosts: DNS names (1-5 labels, case, '_' '-', trailing dot, long), IDN (9 scripts; U-label, upper-case "
+    "case = url (one generated valid URL assigned to a request in a random initial state: origin-form, OPTIONS *, or "
+    "CONNECT authority-form) or edits (1..6 host/port/url/method edits); hosts: DNS names (1-5 labels, case, '_' '-', trailing dot, long), IDN (9 scripts; U-label, upper-case "
     "U-label, A-label, upper-case A-label), IPv4, IPv6 (::1, ::, full, upper-case hex, v4-mapped); ports: absent, "
     "empty, default, zero-padded, 1..65535; ~1/3 of the URLs name the request's current (host, port) again, mostly under the "
     "other scheme with the port explicit or elided (Host/authority text must follow the scheme); targets: RFC 3986 pchar / %xx / ;params / empty params / query / fragment / "
@@ -258,19 +262,30 @@ def gen_url(r, same_as=None):
 
 
 def gen_request(r):
-    version = r.choice([b"HTTP/1.1", b"HTTP/1.1", b"HTTP/2.0", b"HTTP/3", b"HTTP/1.0"])
+    """A request in a random initial state: origin-form / absolute-form GET|POST, asterisk-form OPTIONS *, authority-form
+    CONNECT; HTTP/1.x, HTTP/2, HTTP/3; with and without Host header and authority."""
+    version = r.choice([b"HTTP/1.1", b"HTTP/1.1", b"HTTP/2.0", b"HTTP/2.0", b"HTTP/3", b"HTTP/1.0"])
     scheme = r.choice([b"http", b"https"])
     host = r.choice(["example.com", "1.2.3.4", "old.example"])
     port = r.choice([80, 443, 8080])
+    form = r.choices(["origin", "asterisk", "connect"], [60, 12, 28])[0]
     had_host = r.random() < 0.65
-    had_auth = r.random() < (0.8 if version in (b"HTTP/2.0", b"HTTP/3") else 0.3)
+    if form == "connect":
+        had_auth = r.random() < 0.9  # authority-form: the request target IS the authority
+    else:
+        had_auth = r.random() < (0.8 if version in (b"HTTP/2.0", b"HTTP/3") else 0.3)
     fields = [(b"Accept", b"*/*")]
     if had_host:
-        fields.insert(r.randrange(2), (r.choice([b"Host", b"host", b"HOST"]), r.choice([b"example.com", b"example.com:8080", b"other.example"])))
-    authority = r.choice([b"example.com", b"example.com:8080"]) if had_auth else b""
-    path = r.choice([b"/", b"/old?x=1", b"*"])
-    req = http.Request(host, port, b"GET" if path != b"*" else b"OPTIONS", scheme, authority, path, version, http.Headers(fields), b"", None, 0.0, 0.0)
-    return req, version.decode(), had_host, had_auth
+        fields.insert(r.randrange(2), (r.choice([b"Host", b"host", b"HOST"]), r.choice([b"example.com", b"example.com:8080", b"other.example", b"example.com:443"])))
+    authority = r.choice([b"example.com", b"example.com:8080", b"example.com:443"]) if had_auth else b""
+    if form == "connect":
+        method, path = b"CONNECT", b""
+    elif form == "asterisk":
+        method, path = b"OPTIONS", b"*"
+    else:
+        method, path = r.choice([b"GET", b"GET", b"POST", b"OPTIONS", b"connect"[:0] + b"HEAD"]), r.choice([b"/", b"/old?x=1"])
+    req = http.Request(host, port, method, scheme, authority, path, version, http.Headers(fields), b"", None, 0.0, 0.0)
+    return req, version.decode(), had_host, had_auth, form
 
 
 # ---------------------------------------------------------------------------------------------
@@ -371,9 +386,22 @@ def check_url_assign(ctx, req, g, had_host, had_auth, wit, as_bytes=False):
         return False
     u1 = req.url
     wit["readback"] = u1
-    ctx.count("url.readback_equivalent")
+    connect = req.method == "CONNECT"
+    if connect:
+        # authority-form request: Request.url is documented to read "host:port", not a URL -> only components,
+        # Host header and authority are checked
+        ctx.count("url.assigned_to_connect_request")
+        try:
+            got = exp if ref.parse_hostport(u1, exp["scheme"]) == (exp["host"], exp["port"]) else None
+        except ref.RefURLError:
+            got = None
+        if got is None:
+            ctx.violation("connect-url-not-hostport", {**wit, "want": exp}, classify("readback-unparseable", g["host"], g["target"]))
+            return False
+    else:
+        ctx.count("url.readback_equivalent")
     try:
-        got = ref.parse_url(u1)
+        got = got if connect else ref.parse_url(u1)
     except ref.RefURLError as e:
         ctx.violation("readback-not-a-valid-url", {**wit, "err": str(e)}, classify("readback-unparseable", g["host"], g["target"]))
         got = None
@@ -400,6 +428,8 @@ def check_url_assign(ctx, req, g, had_host, had_auth, wit, as_bytes=False):
         return False
     if not check_pointing(ctx, req, had_host, had_auth, g["host"], wit):
         return False
+    if connect:
+        return True
     ctx.count("url.reassign_idempotent")
     before = snapshot(req)
     try:
@@ -417,8 +447,8 @@ def check_url_assign(ctx, req, g, had_host, had_auth, wit, as_bytes=False):
 def run(ctx):
     for i in ctx.cases():
         r = ctx.rng
-        req, version, had_host, had_auth = gen_request(r)
-        base = {"version": version, "had_host_header": had_host, "had_authority": had_auth, "initial": snapshot(req)}
+        req, version, had_host, had_auth, form0 = gen_request(r)
+        base = {"version": version, "method": req.method, "had_host_header": had_host, "had_authority": had_auth, "initial": snapshot(req)}
         if r.random() < 0.65:
             g = gen_url(r, same_as=req)
             if g["port_form"].endswith("-flip") and (had_host or had_auth):
@@ -426,7 +456,7 @@ def run(ctx):
             as_bytes = g["url"].isascii() and r.random() < 0.25
             check_url_assign(ctx, req, g, had_host, had_auth, {"kind": "url", **base}, as_bytes)
             nontrivial = g["host_class"] != "dns" or g["port_form"] != "absent" or bool(g["feats"])
-            sig = ("url", g["host_class"], g["idn_form"], g["port_form"], g["feats"], g["scheme_case"], version, had_host, had_auth, as_bytes)
+            sig = ("url", form0, g["host_class"], g["idn_form"], g["port_form"], g["feats"], g["scheme_case"], version, had_host, had_auth, as_bytes)
             ctx.case(sig, nontrivial, {"kind": "url", "url": g["url"], "readback": req.url, "host": req.host, "port": req.port, "path": req.path, "host_header": req.headers.get("Host"), "authority": req.data.authority})
             continue
         # ---- edit sequence
@@ -434,9 +464,18 @@ def run(ctx):
         kinds, classes, log = [], set(), []
         last_host = req.host
         for step in range(n):
-            k = r.choice(["host", "host", "port", "port", "url"])
+            k = r.choice(["host", "host", "host", "port", "port", "port", "url", "url", "method"])
             kinds.append(k)
             wit = {"kind": "edits", **base, "step": step, "edits": log[-6:]}
+            if k == "method":
+                # request form changes (GET -> CONNECT = authority-form, OPTIONS, ...); nothing to check by itself: the
+                # following host/port/url edits must keep Host header and authority right whatever the method is
+                mth = r.choice(["CONNECT", "CONNECT", "GET", "OPTIONS", "POST", b"CONNECT", "connect"])
+                log.append(("method", mth))
+                req.method = mth
+                continue
+            if k in ("host", "port") and req.method == "CONNECT" and req.data.authority:
+                ctx.count("edit.connect_request_with_authority_edited")
             if k == "url":
                 g = gen_url(r, same_as=req)
                 if g["port_form"].endswith("-flip") and (had_host or had_auth):
@@ -488,5 +527,5 @@ def run(ctx):
                     break
             if not check_pointing(ctx, req, had_host, had_auth, last_host, wit):
                 break
-        sig = ("edits", tuple(kinds), tuple(sorted(classes)), version, had_host, had_auth)
+        sig = ("edits", form0, tuple(kinds), tuple(sorted(classes)), version, had_host, had_auth)
         ctx.case(sig, had_host or had_auth, {"kind": "edits", "edits": log, "host": req.host, "port": req.port, "host_header": req.headers.get("Host"), "authority": req.data.authority, "url": req.url})
